@@ -93,6 +93,15 @@ def gen_case(rng, cid, store):
                     artifacts.append(a)
             threads.append(th)
         shape = ()
+    if store != "memdir" and shape and rng.random() < 0.45:
+        # the same new artifact pushed by several clients at once, each reading the referrers of the subject right after its
+        # own push was acknowledged
+        n[0] += 1
+        a = mk_image(n[0], subject=subj, at="application/vnd.example.sig")
+        artifacts.append(a)
+        for t in range(rng.randrange(2, 4)):
+            threads.append([manifest_put(repo, rng.choice([dg("sha256", a), "same"]), a, ctype=MT_OCI_M), referrers(repo, dg("sha256", subj))])
+        shape = ()
     for tlen in shape:
         th = []
         for _ in range(tlen):
@@ -172,7 +181,7 @@ def interleavings(lens, before):
 
 
 def make_cases(ctx, first):
-    n = 180 if ctx.tier == "quick" else 6000
+    n = 240 if ctx.tier == "quick" else 6000
     return [gen_case(ctx.rng, first + i, ("mem", "dir", "memdir")[i % 3]) for i in range(n)]
 
 
@@ -312,7 +321,18 @@ def linearize(ctx, cases, iouts, views):
                                         inflight.add(((r2.get("headers") or {}).get("Docker-Content-Digest") or [st2.get("arg")])[0])
                                         inflight.add(st2.get("arg"))
                             diff = set(ca.get("refs") or []) ^ set(cb.get("refs") or [])
-                            if diff and all(json.loads(x).get("dig") in inflight for x in diff):
+                            # (an artifact whose push - or delete - was already acknowledged to some client before this read
+                            #  began is not "in flight" any more: the list must show - or no longer show - it)
+                            settled = set()
+                            for th2, rs2 in zip(threads, par):
+                                for st2, r2 in zip(th2, rs2):
+                                    if st2["kind"] in ("mput", "mdel") and r2.get("status") in (201, 202) and r2.get("t1") and me.get("t0") and r2["t1"] < me["t0"]:
+                                        dgx = ((r2.get("headers") or {}).get("Docker-Content-Digest") or [st2.get("arg")])[0]
+                                        lacks = any(json.loads(x).get("dig") == dgx for x in set(cb.get("refs") or []) - set(ca.get("refs") or []))
+                                        extra = any(json.loads(x).get("dig") == dgx for x in set(ca.get("refs") or []) - set(cb.get("refs") or []))
+                                        if (st2["kind"] == "mput" and lacks) or (st2["kind"] == "mdel" and extra):
+                                            settled.add(dgx)
+                            if diff and not settled and all(json.loads(x).get("dig") in inflight for x in diff):
                                 lag = True
                                 nm += 1
                                 continue
